@@ -81,3 +81,15 @@ prop("C16", modules=["runner"], functions=["runner_local:memento_run_batch"],
      trusted=["RunnerBackend.batch_run of an arbitrary runner is opaque: the proof is about what is dispatched to it",
               "FunctionReferenceWithArguments.__init__ keeps its four arguments (C04 examines it)"],
      assumptions=RUNNER_ASSUME)
+
+FS = "storage_filesystem:FilesystemStorageBackend."
+prop("C18", modules=["config"],
+     functions=[FS + "__init__", FS + "to_dict", "storage_base:StorageBackendBase.__init__", "storage:StorageBackend.__init__",
+                "storage_memory:MemoryStorageBackend.__init__", "storage_memory:MemoryStorageBackend.to_dict", "storage_null:NullStorageBackend.to_dict",
+                "storage:StorageBackend.create", "runner:RunnerBackend.create", "runner_local:LocalRunnerBackend.to_dict", "runner_null:NullRunnerBackend.to_dict",
+                "configuration:FunctionCluster.__init__", "configuration:FunctionCluster.to_dict", "configuration:ConfigurationRepository.to_dict",
+                "configuration:Environment.to_dict", "configuration:Environment.get_cluster", "configuration:Environment.append_repo", "configuration:Environment.prepend_repo"],
+     split={FS + "__init__": 10, "configuration:FunctionCluster.__init__": 12},
+     design_ref="DESIGN.md section 6, C18",
+     trusted=["pathlib operations are uninterpreted functions of the path strings", "YAML/JSON/Jinja loaders produce the dict they describe (not examined)"],
+     assumptions=["configuration values have the documented types (path strings, non-negative number for memory_cache_mb)"])
